@@ -228,4 +228,17 @@ theorem unavailable_directive_variable_raises :
     ruleR 5 3 none ⟨[⟨some "A", [.field none "a" { skip := some (.var "v") } [fld "c"]]⟩], []⟩
       [[⟨"v", .boolean, true, none⟩]] [("v", .null)] = .error .coercion := by decide
 
+/-- after C19-Q1vars2.patch (`ruleRT`) the same requests no longer raise: the guarded selection is KEPT when its
+    condition cannot be evaluated (depth 1 ≤ 3: nothing reported; at limit 0 it is reported), and a request
+    whose variables are all available is measured exactly as before -/
+theorem unavailable_directive_variable_kept :
+    ruleRT 5 3 none ⟨[⟨some "A", [.field none "a" { skip := some (.var "v") } [fld "c"]]⟩, ⟨some "B", [fld "c"]⟩], []⟩
+      [[⟨"v", .boolean, true, none⟩], []] [] = .ok [] ∧
+    ruleRT 5 0 none ⟨[⟨some "A", [.field none "a" { skip := some (.var "v") } [fld "c"]]⟩, ⟨some "B", [fld "c"]⟩], []⟩
+      [[⟨"v", .boolean, true, none⟩], []] [] = .ok [(0, 1)] ∧
+    ruleRT 5 0 none ⟨[⟨some "A", [.field none "a" { skip := some (.var "v") } [fld "c"]]⟩], []⟩
+      [[⟨"v", .boolean, true, none⟩]] [("v", .null)] = .ok [(0, 1)] ∧
+    ruleRT 5 0 none ⟨[⟨some "A", [.field none "a" { skip := some (.var "v") } [fld "c"]]⟩], []⟩
+      [[⟨"v", .boolean, true, none⟩]] [("v", .bool true)] = .ok [] := by decide
+
 end PyGql.Props.C19
